@@ -620,3 +620,155 @@ Example C05_ex_executable_scheduler :
   forallb (fun cv => forallb (fun seed => test seed cv (split_counts Z cv data)) [3; 777]%Z)
           (all_counts 3 2 ++ all_counts 2 4) = true.
 Proof. exact (conj exec_five_ranks exec_small_instances). Qed.
+
+(* ===== tie T1: the model computes what the definitions GENERATED from /repo/src/sc_sort.c compute ============================ *)
+(* Gen/PsortC05.v is regenerated from the working tree on every run (tools/c2g/groups_C05.py); an edit of the arithmetic in
+   sc_sort.c changes a generated definition and the statements below stop checking.  zn = Z.of_nat, B62 = 2^62, B31 = 2^31. *)
+From Coq Require Import Lia.
+From ScV Require Import Base.CInt Gen.PsortC05 C05.PsortGen.
+Local Open Scope Z_scope.
+
+
+(* `for (k = 1; k < n;) k = k << 1; n2 = k >> 1`: the generated loop returns the model's n2_of, for every n below 2^62 *)
+Theorem C05_gen_n2 : forall n, zn n < B62 -> merge_n2 (S n) (zn n) = Some (zn (n2_of n)).
+Proof. exact gen_n2. Qed.
+Print Assumptions C05_gen_n2.
+
+(* the generated loop of sc_bsearch_cumulative (incl. the size_t `guess - 1`) = the model's owner search, step for step, for every cumulative array that starts at 0 *)
+Theorem C05_gen_owner_loop : forall c pos, c O = O -> (forall i, zn (c i) < B62) -> zn pos < B62 ->
+  forall fuel low high guess M, zn low <= M -> zn high <= M -> zn guess <= M -> M + zn fuel < B62 ->
+  loop_guess (sc_bsearch_cumulative_loop1 fuel (zc c) (zn pos) (zn guess) (zn high) (zn low)) =
+  option_map zn (owner_search_opt fuel c low high guess pos).
+Proof. exact gen_owner_loop. Qed.
+Print Assumptions C05_gen_owner_loop.
+
+(* the whole generated sc_bsearch_cumulative = the model's search started with low = 0, high = nmemb - 1 *)
+Theorem C05_gen_bsearch : forall c nmemb pos guess fuel, c O = O -> (forall i, zn (c i) < B62) -> zn pos < B62 ->
+  (0 < nmemb)%nat -> (guess < nmemb)%nat -> zn nmemb + zn fuel < B62 ->
+  sc_bsearch_cumulative fuel (zc c) (zn nmemb) (zn pos) (zn guess) =
+  option_map zn (owner_search_opt fuel c 0 (nmemb - 1) guess pos).
+Proof. exact gen_bsearch. Qed.
+Print Assumptions C05_gen_bsearch.
+
+(* whenever the generated function returns (fuel = nmemb, as in the model) it returns the model's bsearch_cumulative *)
+Theorem C05_gen_bsearch_model : forall c nmemb pos guess r, c O = O -> (forall i, zn (c i) < B62) -> zn pos < B62 ->
+  (0 < nmemb)%nat -> (guess < nmemb)%nat -> 2 * zn nmemb < B62 ->
+  sc_bsearch_cumulative nmemb (zc c) (zn nmemb) (zn pos) (zn guess) = Some r ->
+  r = zn (bsearch_cumulative c nmemb pos guess).
+Proof. exact gen_bsearch_model. Qed.
+Print Assumptions C05_gen_bsearch_model.
+
+(* the guard of sc_merge_bitonic is the model's `participates` *)
+Theorem C05_gen_merge_guard : forall off me lo n, merge_guard (zn n) (zn lo) (zn (lo + n)) (zn (cum off me)) (zn (cum off (S me))) = participates off me lo n.
+Proof. exact gen_merge_guard. Qed.
+Print Assumptions C05_gen_merge_guard.
+
+(* lo_end = lo + n - n2, hi_beg = lo + n2 *)
+Theorem C05_gen_merge_ends : forall lo n n2, (n2 <= n)%nat -> zn lo + zn n < B62 ->
+  merge_ends (zn lo) (zn n) (zn n2) = (zn (lo + (n - n2)), zn (lo + n2)).
+Proof. exact gen_merge_ends. Qed.
+Print Assumptions C05_gen_merge_ends.
+
+(* the segment loops run while offset < lo_end - lo *)
+Theorem C05_gen_seg_cond : forall lo r offset, zn lo + zn r < B62 ->
+  merge_seg_cond1 (zn offset) (zn (lo + r)) (zn lo) = (offset <? r)%nat /\ merge_seg_cond2 (zn offset) (zn (lo + r)) (zn lo) = (offset <? r)%nat.
+Proof. exact gen_seg_cond. Qed.
+Print Assumptions C05_gen_seg_cond.
+
+(* offset += max_length *)
+Theorem C05_gen_seg_next : forall offset m, zn offset + zn m < B62 ->
+  merge_seg_next1 (zn offset) (zn m) = zn (offset + m) /\ merge_seg_next2 (zn offset) (zn m) = zn (offset + m).
+Proof. exact gen_seg_next. Qed.
+Print Assumptions C05_gen_seg_next.
+
+(* one pass of the segment loop: lengths and max_length = SC_MIN (rest, SC_MIN (lo_length, hi_length)) are the model's (segs_loop); the searches get the model's arguments *)
+Theorem C05_gen_merge_seg : forall c P lo hi_beg r offset lo_owner hi_owner lo' hi', (forall i, zn (c i) < B62) -> zn lo + zn r < B62 -> zn hi_beg + zn r < B62 -> (offset <= r)%nat ->
+  zn P < B31 -> zn lo_owner < B31 -> zn hi_owner < B31 -> zn lo' + 1 < B31 -> zn hi' + 1 < B31 ->
+  (lo + offset <= c (S lo'))%nat -> (hi_beg + offset <= c (S hi'))%nat ->
+  let lo_length := (c (S lo') - (lo + offset))%nat in
+  let hi_length := (c (S hi') - (hi_beg + offset))%nat in
+  let max_length := Nat.min (r - offset) (Nat.min lo_length hi_length) in
+  merge_seg1 (zc c) (zn lo) (zn hi_beg) (zn (lo + r)) (zn offset) (zn lo_owner) (zn hi_owner) (zn P) (zn lo') (zn hi') =
+  (zn lo', zn lo_length, zn hi', zn hi_length, zn max_length,
+   zn P, zn (lo + offset), zn lo_owner, zn P, zn (hi_beg + offset), zn hi_owner).
+Proof. exact gen_merge_seg. Qed.
+Print Assumptions C05_gen_merge_seg.
+
+(* loop 2 of sc_merge_bitonic repeats loop 1's computation *)
+Theorem C05_gen_merge_seg2 : merge_seg2 = merge_seg1.
+Proof. exact gen_merge_seg2. Qed.
+Print Assumptions C05_gen_merge_seg2.
+
+(* the three owner tests (low side / high side / local) are the tests of seg_pspec and rank_local *)
+Theorem C05_gen_sides : forall lo_owner hi_owner me, merge_lo_side (zn lo_owner) (zn hi_owner) (zn me) = ((lo_owner =? me)%nat && negb (hi_owner =? me)%nat) /\
+  merge_hi_side (zn lo_owner) (zn hi_owner) (zn me) = (negb (lo_owner =? me)%nat && (hi_owner =? me)%nat) /\
+  merge_local (zn lo_owner) (zn hi_owner) (zn me) = ((lo_owner =? me)%nat && (hi_owner =? me)%nat).
+Proof. exact gen_sides. Qed.
+Print Assumptions C05_gen_sides.
+
+(* byte offset of a segment in the local array = the model's element index times the element size *)
+Theorem C05_gen_starts : forall pos offset my_lo size, (my_lo <= pos + offset)%nat -> zn pos + zn offset < B62 -> 0 <= size -> zn (pos + offset - my_lo) * size < B62 ->
+  merge_lo_start (zn pos) (zn offset) (zn my_lo) size = zn (pos + offset - my_lo) * size /\
+  merge_hi_start (zn pos) (zn offset) (zn my_lo) size = zn (pos + offset - my_lo) * size /\
+  merge_lo_start_local (zn pos) (zn offset) (zn my_lo) size = zn (pos + offset - my_lo) * size /\
+  merge_hi_start_local (zn pos) (zn offset) (zn my_lo) size = zn (pos + offset - my_lo) * size.
+Proof. exact gen_starts. Qed.
+Print Assumptions C05_gen_starts.
+
+(* message length in bytes *)
+Theorem C05_gen_bytes : forall len size, 0 <= size -> zn len * size < B31 ->
+  merge_bytes_lo (zn len) size = zn len * size /\ merge_bytes_hi (zn len) size = zn len * size.
+Proof. exact gen_bytes. Qed.
+Print Assumptions C05_gen_bytes.
+
+(* the tags of the model's per-rank program are the ones the four generated call sites pass (low side: receive HI, send LO; high side: receive LO, send HI) *)
+Theorem C05_gen_tags : forall (lo_side : bool) tag_lo tag_hi, (if lo_side then tag_hi else tag_lo) = (if lo_side then merge_lo_recv_tag tag_lo tag_hi else merge_hi_recv_tag tag_lo tag_hi) /\
+  (if lo_side then tag_lo else tag_hi) = (if lo_side then merge_lo_send_tag tag_lo tag_hi else merge_hi_send_tag tag_lo tag_hi).
+Proof. exact gen_tags. Qed.
+Print Assumptions C05_gen_tags.
+
+(* `dir == (compar (lo, hi) > 0)` in all five places = the model's swap_needed, for every comparison function *)
+Theorem C05_gen_swap : forall (A : Type) (gt : A -> A -> bool) (dir : bool) (a b : A) cmp, gt a b = (0 <? cmp) ->
+  merge_swap_0 (b2z dir) cmp = swap_needed A gt dir a b /\ merge_swap_1 (b2z dir) cmp = swap_needed A gt dir a b /\
+  merge_swap_2 (b2z dir) cmp = swap_needed A gt dir a b /\ merge_swap_3 (b2z dir) cmp = swap_needed A gt dir a b /\
+  merge_swap_4 (b2z dir) cmp = swap_needed A gt dir a b.
+Proof. exact gen_swap. Qed.
+Print Assumptions C05_gen_swap.
+
+(* what is copied when the test holds: local exchange through temp; low side takes the partner's element; high side takes the partner's (low) element *)
+Theorem C05_gen_moves : forall (dir : bool) cmp lo hi size temp, let sw := Bool.eqb dir (0 <? cmp) in
+  merge_move_0 (b2z dir) cmp lo hi size temp = (if sw then (temp, lo, size, lo, hi, size, hi, temp, size) else (0, 0, 0, 0, 0, 0, 0, 0, 0)) /\
+  merge_move_1 (b2z dir) cmp lo hi size = (if sw then (lo, hi, size) else (0, 0, 0)) /\
+  merge_move_3 (b2z dir) cmp lo hi size = (if sw then (lo, hi, size) else (0, 0, 0)) /\
+  merge_move_2 (b2z dir) cmp lo hi size = (if sw then (hi, lo, size) else (0, 0, 0)) /\
+  merge_move_4 (b2z dir) cmp lo hi size = (if sw then (hi, lo, size) else (0, 0, 0)).
+Proof. exact gen_moves. Qed.
+Print Assumptions C05_gen_moves.
+
+(* `rank < peer->prank` decides which half a rank keeps (apply_peer) *)
+Theorem C05_gen_remote_lower : forall me prank, merge_remote_lower1 (zn me) (zn prank) = (me <? prank)%nat /\ merge_remote_lower2 (zn me) (zn prank) = (me <? prank)%nat.
+Proof. exact gen_remote_lower. Qed.
+Print Assumptions C05_gen_remote_lower.
+
+(* sc_merge_bitonic recurses on [lo, lo + n2) and [lo + n2, hi) with the same direction *)
+Theorem C05_gen_merge_recurse : forall lo n n2 dir, (n2 <= n)%nat -> zn lo + zn n < B62 ->
+  merge_recurse (zn lo) (zn (lo + n)) (zn n2) dir = (zn lo, zn (lo + n2), dir, zn (lo + n2), zn (lo + n2 + (n - n2)), dir).
+Proof. exact gen_merge_recurse. Qed.
+Print Assumptions C05_gen_merge_recurse.
+
+(* the guard of sc_psort_bitonic is the model's `participates` *)
+Theorem C05_gen_psort_guard : forall off me lo n, psort_guard (zn n) (zn lo) (zn (lo + n)) (zn (cum off me)) (zn (cum off (S me))) = participates off me lo n.
+Proof. exact gen_psort_guard. Qed.
+Print Assumptions C05_gen_psort_guard.
+
+(* `lo >= my_lo && hi <= my_hi` is the model's inside_rank *)
+Theorem C05_gen_psort_inside : forall off me lo n, psort_inside (zn lo) (zn (lo + n)) (zn (cum off me)) (zn (cum off (S me))) = inside_rank off lo n me.
+Proof. exact gen_psort_inside. Qed.
+Print Assumptions C05_gen_psort_inside.
+
+(* sc_psort_bitonic: n / 2, the flipped direction for the first half, the kept one for the second, then the merge of [lo, hi) *)
+Theorem C05_gen_psort_recurse : forall lo n (dir : bool), zn lo + zn n < B62 ->
+  psort_recurse (zn n) (zn lo) (zn (lo + n)) (b2z dir) =
+  (zn lo, zn (lo + n / 2), b2z (negb dir), zn (lo + n / 2), zn (lo + n / 2 + (n - n / 2)), b2z dir, zn lo, zn (lo + n), b2z dir).
+Proof. exact gen_psort_recurse. Qed.
+Print Assumptions C05_gen_psort_recurse.
